@@ -29,7 +29,11 @@ def run(tier, seed):
              ([(2, 4, 1)], {'schemes': ('asc',), 'decls': ('bystander',)}),
              # plus: nested orthogonal states with three transitions at once from pairwise orthogonal sources (a step
              # that must be refused must not be half executed into an illegal configuration)
-             ([(7, 7, '3o')], {'require': 'nested-orth', 'schemes': ('asc',), 'history': False, 'final': False})]
+             ([(7, 7, '3o')], {'require': 'nested-orth', 'schemes': ('asc',), 'history': False, 'final': False}),
+             # plus: the smallest charts in which two sources of an inner orthogonal state conflict (one leaves it
+             # but stays in its region of the orthogonal root) while a source of another region sorts between them
+             ([(9, 10, '3o')], {'require': 'wrapped-orth', 'schemes': ('asc', 'desc'), 'history': False,
+                                'final': False})]
     return schemes.run('C02', tier, seed, PLAN[tier], ['legal'], {'legal', 'stable', 'final'},
                        RULE, ASSUME, extra_plans=extra)
 
